@@ -135,3 +135,20 @@ def repetitive_models(seed):
         m.add([A.V('==', 'BARLINES')] * len(h))
         out.append(m.close())
     return out
+
+
+def many_distinct_model(seed):
+    """several hundred DIFFERENT note encodings in two kern spines, then the early ones again (bounded caches, interning)"""
+    from .model import Model
+    m = Model(['**kern', '**kern', '**text'])
+    m.add([A.V('*clefG2', 'CLEF'), A.V('*clefF4', 'CLEF'), A.NULL_I])
+    durs = ['1', '2', '4', '8', '16', '32', '4.', '8.']
+    pits = ['c', 'd', 'e', 'f', 'g', 'a', 'b', 'cc', 'dd', 'ee', 'ff', 'gg', 'aa', 'bb', 'C', 'D', 'E', 'F', 'G', 'A', 'B', 'CC', 'DD']
+    notes = [A.note(d, p_, a) for d in durs for p_ in pits for a in ('', '#')]
+    k = seed % 7
+    rows = list(zip(notes[k::2], notes[k + 1::2]))
+    for i, (x, y) in enumerate(rows[:170] + rows[:25]):
+        if i % 8 == 0:
+            m.add([A.V(f'={i // 8 + 1}', 'BARLINES', '=')] * 3)
+        m.add([x, y, A.text_cell(A.TEXT[i % len(A.TEXT)], '**text')])
+    return m.close()
